@@ -1,6 +1,6 @@
 #!/usr/bin/env python3
 """Re-run every confirmed seeded change (seeded/<name>/patch.diff) against the property's current quick check.
-usage: tools/seeded_all.py [names...]   -> prints one line per change; exit 1 if any is not detected."""
+usage: tools/seeded_all.py [--record] [names...]   -> prints one line per change; exit 1 if any is not detected."""
 import json
 import os
 import shutil
@@ -12,7 +12,10 @@ VERIF = os.path.dirname(os.path.dirname(os.path.abspath(__file__)))
 
 
 def main():
-    names = sys.argv[1:] or sorted(os.listdir(os.path.join(VERIF, "seeded")))
+    args = sys.argv[1:]
+    record = "--record" in args          # write the result into meta.json (the first recorded result is kept as 'first_result')
+    args = [a for a in args if a != "--record"]
+    names = args or sorted(os.listdir(os.path.join(VERIF, "seeded")))
     missed = []
     for name in names:
         d = os.path.join(VERIF, "seeded", name)
@@ -33,6 +36,14 @@ def main():
             print(name, "detected" if r.returncode == 1 and nv else "NOT DETECTED (exit %d)" % r.returncode, nv, (first[0][:160] if first else ""), flush=True)
             if not (r.returncode == 1 and nv):
                 missed.append(name)
+            if record:
+                q = meta.setdefault("quick_checks_against_change", {})
+                if "first_result" not in meta:
+                    meta["first_result"] = dict(q)
+                q[prop] = {"exit": r.returncode, "violations": nv, "first": first[0][:400] if first else ""}
+                meta.setdefault("ran", []).append("tools/seeded_all.py --record %s" % name)
+                with open(os.path.join(d, "meta.json"), "w") as f:
+                    json.dump(meta, f, indent=1)
         finally:
             shutil.rmtree(tree, ignore_errors=True)
             shutil.rmtree(os.path.join(VERIF, "found"), ignore_errors=True)
